@@ -20,7 +20,8 @@ EXPLANATION = (
     "that is encoded (its per-segment minimum is C12's SIB-expiry); (META-order) hop fields and interface list of a segment are "
     "reversed together, under the same condition, so the list stays in travel order; each listed interface is (as_entry.local, "
     "cons_egress/cons_ingress of the hop field that is pushed); (META-ends) source/destination are the first and last listed "
-    "interface's AS; (SEQ, shared with C19 DEPTH) at most three segments; (IDX-peer, shared with C19) peer index positions.")
+    "interface's AS; (COST-peer-once) the two directed edges of a peering link carry the extra link exactly once (towards_peer true "
+    "leaving the AS, false arriving); (SEQ, shared with C19 DEPTH) at most three segments; (IDX-peer, shared with C19) peer index positions.")
 RESIDUAL = [
     "soundness/completeness of the graph search against the SCION combination rules (which joins, shortcuts and peerings exist): values",
     "numeric correctness of weights; that the minimum over the named sources equals the true path MTU for every topology",
@@ -261,3 +262,42 @@ def run(F, R, tier, cfg):
     c19.enum_index_rule(F, R)
     c19.depth_rule(F, R)
     meta_rules(F, R)
+    peer_cost_rule(F, R)
+
+
+ADD_NC = G + "MultiGraph::<'a, F, EntryType>::add_non_core_segment"
+
+
+def peer_cost_rule(F, R):
+    """COST-peer-once: "cheapest (fewest hops) first": a peering link is one link of the path; the two directed graph edges that
+    model its use carry the extra link exactly once — the edge leaving the AS towards the peering vertex is weighted with
+    towards_peer = true, the edge arriving from the peering vertex with towards_peer = false.  Two `true`s price every peering
+    path one link too high, two `false`s one too low, and the sort by cost then misorders peering against non-peering paths."""
+    b = F.body(ADD_NC)
+    if b is None:
+        R.anchor_missing(ADD_NC)
+        return
+    R.fn(ADD_NC)
+    seen = []
+    for c in b.calls:
+        if c.indirect or not (c.decl or "").endswith("::add_directed_edge") or c.bb not in b.live_blocks():
+            continue
+        e = strip_sites(b.origin(c.args[4]))
+        src = strip_sites(b.origin(c.args[1]))
+        if e[0] != "agg" or len(e[2]) < 3:
+            continue
+        peer = e[2][2]
+        if not (peer[0] == "agg" and peer[1][2] == "Some"):
+            continue
+        w = e[2][0]
+        flag = None
+        if w[0] == "call" and w[1].endswith("Fn::call") and len(w[2]) == 2 and w[2][1][0] == "agg" and len(w[2][1][2]) == 3:
+            flag = PN.const_eval(w[2][1][2][2])
+        from_as = src[0] == "agg" and src[1][2] == "AS"
+        seen.append((from_as, flag))
+    ok = sorted(seen, key=str) == sorted([(True, 1), (False, 0)], key=str)
+    R.ob("COST-peer-once", "peering edges: AS->peering weighted with towards_peer=true, peering->AS with false (%s)" % seen, ok, True,
+         {"rule": "COST-peer-once", "fn": ADD_NC, "edges": [{"from_as": a, "towards_peer": f} for a, f in seen], "holds": ok})
+    if not ok:
+        R.violation("COST-peer-once", ADD_NC, "the two directed edges of a peering link do not carry the extra link exactly once (from-AS/towards_peer pairs: %s): "
+                    "peering paths are mispriced and the cost order of the result is wrong" % seen, F.loc(ADD_NC))
